@@ -77,6 +77,9 @@ func corpus() []Case {
 		{Kind: "serve", Seq: []string{"@ibb-listen", "@ibb-expect", "@ibb-expect", canon["ibb"][0], canon["ping"][0]}, Labels: []string{"corpus/ibb-expect-takeover"}},
 		{Kind: "serve", Seq: []string{"@ibb-listen", "@ibb-expect", "@ibb-expect", "@ibb-expect", canon["ibb"][0], canon["ibb"][1]}, Labels: []string{"corpus/ibb-expect-takeover-twice"}},
 		{Kind: "serve", Seq: []string{"@ibb-listen", "@ibb-acceptor", "@ibb-expect", "@ibb-expect-cancel", "@ibb-expect", canon["ibb"][0], canon["ibb"][5]}, Labels: []string{"corpus/ibb-expect-cancel-expect"}},
+		// ibb: a local Write on an IQ-acknowledged stream waits for its ack; the peer sends <close/> instead
+		{Kind: "serve", Seq: []string{"@ibb-listen", "@ibb-acceptor", canon["ibb"][0], "@ibb-write", canon["ibb"][3], canon["ping"][0]}, Labels: []string{"corpus/ibb-close-while-writing"}},
+		{Kind: "serve", Bare: true, Seq: []string{"@ibb-listen", "@ibb-acceptor", canon["ibb"][0], canon["ibb"][1], "@ibb-write", canon["ibb"][3], canon["ibb"][0], "@ibb-write", canon["ibb"][3]}, Labels: []string{"corpus/ibb-close-while-writing-bare"}},
 		// receipts: the same receipt several times while the message awaits it (the sender cannot run: the peer
 		// does not read), then a probe stanza that is only read once the receipts have been handled
 		{Kind: "serve", Seq: []string{"@rcpt-send-held", rcvd3, `<message type='chat'><body>probe</body></message>`, "@out-release", canon["ping"][0]}, Labels: []string{"corpus/receipts-repeated-while-pending"}},
@@ -257,7 +260,16 @@ func genOpSeq(r *hx.Rand) (seq []string, labels []string) {
 					seq = append(seq, "@ibb-expect") // takes the first call over
 				}
 			case k == 3:
-				seq = append(seq, "@ibb-conn-close")
+				if r.Chance(1, 2) {
+					seq = append(seq, "@ibb-conn-close")
+				} else if open {
+					// a stream of ours with a Write waiting for its ack, then the peer closes it
+					seq = append(seq, canon["ibb"][0], "@ibb-write")
+					if r.Chance(2, 3) {
+						seq = append(seq, canon["ibb"][3])
+					}
+					labels = append(labels, "ibb/write-then-close")
+				}
 			case k == 4:
 				st("ibb", 0)
 			case k == 5:
